@@ -5,6 +5,7 @@ from . import ftlib as F
 
 ID = "C02"
 CHECKER = "chk_ft"
+THEOREMS = ['C02_ft_is_trapz', 'C02_trapz_weights', 'C02_tweights_length', 'C02_tweights_first', 'C02_tweights_interior', 'C02_tweights_last', 'C02_tweights_short', 'C02_zero_at_0', 'C02_odd', 'C02_linear', 'C02_fortran_core', 'C02_fortran_core_lorch', 'C02_fortran_g', 'C02_fortran_g_lorch']
 RULE = ("strictly increasing grids (uniform from 0 / offset / jittered / strongly non-uniform; sizes 2,3,5,7,11 over-represented), "
         "output grids incl. 0, negative and repeated abscissae, smooth / random / 6-decade / integer / single-spike data; "
         "non-trivial = some output non-zero; distinct by input hash")
